@@ -1,6 +1,7 @@
 package v1
 
 import (
+	"bytes"
 	"crypto/cipher"
 	"errors"
 	"io"
@@ -277,4 +278,83 @@ func VerifNonceInjective() {
 		zzverif.Assert(!zzverif.EqBytes(a, c), "another_document_has_other_nonces")
 	}
 	zzverif.Cover("nonce_injective_done")
+}
+
+// The real segment size. tamper_stream runs the segment loop with a one-byte segment (the loop takes the size as a
+// parameter), which cannot see anything that depends on the real constants. Here the loop runs as Decrypt runs it,
+// with 65 552-byte ciphertext segments: an authentic document of one full segment followed by a short last one is
+// cut so that only 1..16 bytes of the last segment remain (or 1..17 arbitrary bytes are appended to a one-segment
+// document, or the only segment loses its last 1..17 bytes): the stream must not end cleanly, and what was released
+// is a prefix of the plaintext. Segment contents are concrete (the ideal AEAD compares them), the tail is symbolic.
+//
+//verif:harness prop=C02 name=real_size_tail threads=2 sched=delay preempt=0 unwind=40 race=off witness=lenient
+func VerifRealSizeTail() {
+	zzverifstubs.Init()
+	vAuthentic = nil
+	fk, err := importFileKey(zzverif.Bytes("file_key", 32), zzverif.Bytes("nonce_prefix", 7), CipherAESGCM)
+	zzverif.Assert(err == nil, "import_ok")
+	const S = SegmentSize
+	pt0 := make([]byte, S)
+	ct0 := bytes.Repeat([]byte{0x5a}, S+SegmentOverhead)
+	var X, plain []byte
+	mode := zzverif.Choose("mode", 3)
+	t := 1 + zzverif.Choose("tail_len", 17)
+	// native replay: the segments are really sealed (the engine's ideal AEAD is not there)
+	seal := func(pt []byte, num uint32, last bool) []byte {
+		w := &vCollectT{}
+		buf := make([]byte, len(pt), len(pt)+SegmentOverhead)
+		copy(buf, pt)
+		if err := fk.EncryptSegment(w, buf, num, last); err != nil {
+			panic(err)
+		}
+		return w.b
+	}
+	if !zzverif.Symbolic() {
+		ct0 = seal(pt0, 0, mode != 0)
+	}
+	switch mode {
+	case 0: // [full segment, not last] + the first 1..16 bytes of the (17-byte) last segment
+		zzverif.Assume(t <= 16)
+		pt1 := zzverif.Bytes("pt1", 1)
+		ct1 := zzverif.Bytes("ct1", 17)
+		if !zzverif.Symbolic() {
+			ct1 = seal(pt1, 1, true)
+		}
+		vAuthentic = append(vAuthentic, vSealed{nonce: vNonce(fk.noncePrefix, 0, false), ct: ct0, pt: pt0},
+			vSealed{nonce: vNonce(fk.noncePrefix, 1, true), ct: ct1, pt: pt1})
+		plain = append(append([]byte{}, pt0...), pt1...)
+		X = append(append([]byte{}, ct0...), ct1[:t]...)
+	case 1: // one-segment document with 1..17 arbitrary bytes appended
+		vAuthentic = append(vAuthentic, vSealed{nonce: vNonce(fk.noncePrefix, 0, true), ct: ct0, pt: pt0})
+		plain = pt0
+		X = append(append([]byte{}, ct0...), zzverif.Bytes("junk", t)...)
+	case 2: // one-segment document that lost its last 1..17 bytes
+		vAuthentic = append(vAuthentic, vSealed{nonce: vNonce(fk.noncePrefix, 0, true), ct: ct0, pt: pt0})
+		plain = pt0
+		X = append([]byte{}, ct0[:len(ct0)-t]...)
+	}
+	pr, pw := io.Pipe()
+	go processSegments(&vReader{data: X, failAt: -1, split: 0}, pw, fk.DecryptSegment, SegmentSize+SegmentOverhead)
+	var out []byte
+	buf := make([]byte, S+64)
+	var rerr error
+	for i := 0; i < 6; i++ {
+		var n int
+		n, rerr = pr.Read(buf)
+		out = append(out, buf[:n]...)
+		if rerr != nil {
+			break
+		}
+	}
+	zzverif.Assume(rerr != nil)
+	zzverif.Assert(len(out) <= len(plain) && zzverif.EqBytes(out, plain[:len(out)]), "released_bytes_are_prefix_of_plaintext")
+	zzverif.Assert(rerr != io.EOF, "shortened_or_extended_document_does_not_end_cleanly")
+	zzverif.Cover("real_size_tail_done")
+}
+
+type vCollectT struct{ b []byte }
+
+func (c *vCollectT) Write(p []byte) (int, error) {
+	c.b = append(c.b, p...)
+	return len(p), nil
 }
